@@ -885,7 +885,23 @@ func (e *Engine) call(fi *fnInfo, st *State, in *ssa.Call) []*State {
 		// a small pure helper of the package (l.tmpl.enabled(), isTagOpen(c, next)): analysed like the lexer's own code
 		return e.callKnown(fi, st, in, callee)
 	}
-	if pi := e.bytePredicateAt(callee, cc.Args); pi.table != nil && pi.param < len(cc.Args) {
+	// arguments that are constants in this calling context (a class handed down through the caller's own parameter:
+	// consumeClass(class) -> isClass(l.r.Peek(0), class)) are bound like literal constants
+	predArgs, copied := cc.Args, false
+	for i, a := range cc.Args {
+		if _, isC := a.(*ssa.Const); isC {
+			continue
+		}
+		if av := e.eval(st, a); av.k == vInt && av.atom == "" {
+			if c, ok := av.constInt(); ok && (isIntType(a.Type()) || isByteType(a.Type())) {
+				if !copied {
+					predArgs, copied = append([]ssa.Value{}, cc.Args...), true
+				}
+				predArgs[i] = ssa.NewConst(constant.MakeInt64(c), a.Type())
+			}
+		}
+	}
+	if pi := e.bytePredicateAt(callee, predArgs); pi.table != nil && pi.param < len(cc.Args) {
 		// a pure predicate over one byte: treated like a [256]bool table indexed by the argument
 		arg := cc.Args[pi.param]
 		set := e.eval(st, arg).byteSet()
